@@ -112,10 +112,14 @@ def parseIsoPeriod (cs : List Char) : Except String Period :=
     | some c, some u => .ok ⟨u, c, 1⟩
     | _, _ => .error "parse"
 
-def splitOn (sep : Char) (cs : List Char) : List (List Char) :=
-  let r := cs.foldr (fun c (acc : List Char × List (List Char)) =>
-    if c = sep then ([], acc.1 :: acc.2) else (c :: acc.1, acc.2)) ([], [])
-  r.1 :: r.2
+/-- Python `str.split(sep)` -/
+def splitOn (sep : Char) : List Char → List (List Char)
+  | [] => [[]]
+  | c :: cs =>
+    if c = sep then [] :: splitOn sep cs
+    else match splitOn sep cs with
+      | [] => [[c]]
+      | h :: t => (c :: h) :: t
 
 def isSpace (c : Char) : Bool :=
   c = ' ' ∨ c = '\t' ∨ c = '\n' ∨ c = '\r' ∨ c = '\x0b' ∨ c = '\x0c'
@@ -147,34 +151,39 @@ def pyInt (cs : List Char) : Option Int :=
 
 def lower (cs : List Char) : List Char := cs.map Char.toLower
 
+/-- the optional size field of `unit:date[:size]`; more than one extra field is an error -/
+def sizeField : List (List Char) → Except String Int
+  | [] => .ok 1
+  | [s] => match pyInt s with
+    | some n => .ok n
+    | none => .error "period"
+  | _ :: _ :: _ => .error "period"
+
+/-- the `unit:date[:size]` form, already split on ':' -/
+def parseUnitForm (u mid : List Char) (rest : List (List Char)) : Except String Period :=
+  if (lexIso mid).isNone then .error "period" else
+  match unitOfName? (String.ofList u) with
+  | none => .error "period"
+  | some .eternity => .error "period"
+  | some unit =>
+    match parseIsoPeriod mid with
+    | .error e => .error e
+    | .ok base =>
+      match sizeField rest with
+      | .error e => .error e
+      | .ok n =>
+        if unitWeight base.unit > unitWeight unit then .error "period"
+        else .ok ⟨unit, base.start, n⟩
+
 /-- `helpers.period(value: str)` -/
 def parsePeriod (cs : List Char) : Except String Period :=
   if lower cs = "eternity".toList then .ok Period.eternity
   else if (lexIso cs).isSome then parseIsoPeriod cs
   else
     match splitOn ':' cs with
-    | [_] => .error "period"
-    | comps@(u :: mid :: rest) =>
-      if (lexIso mid).isNone then .error "period" else
-      match unitOfName? (String.ofList u) with
-      | none => .error "period"
-      | some .eternity => .error "period"
-      | some unit =>
-        match parseIsoPeriod mid with
-        | .error e => .error e
-        | .ok base =>
-          let size : Except String Int :=
-            match rest with
-            | [] => .ok 1
-            | [s] => match pyInt s with | some n => .ok n | none => .error "period"
-            | _ => .error "period"
-          match size with
-          | .error e => .error e
-          | .ok n =>
-            let _ := comps
-            if unitWeight base.unit > unitWeight unit then .error "period"
-            else .ok ⟨unit, base.start, n⟩
     | [] => .error "period"
+    | [_] => .error "period"
+    | u :: mid :: rest => parseUnitForm u mid rest
 
 /-- `helpers.instant(value: str)` -/
 def parseInstant (cs : List Char) : Except String Date :=
